@@ -22,7 +22,9 @@ pub(super) fn bool_from_id<T: ValueStore, U: CacheStore>(
     if let Some(node) = node_id.as_iboolean_kind(store) {
         node.value(device, store, cx)
     } else if let Some(node) = node_id.as_iinteger_kind(store) {
-        Ok(node.value(device, store, cx)? == 1)
+        // GenApi: an integer valued `pIsImplemented`/`pIsAvailable`/`pIsLocked` node counts as
+        // true when it is non-zero (device descriptions feed it mask expressions like `REG & 0x4`).
+        Ok(node.value(device, store, cx)? != 0)
     } else {
         Err(GenApiError::invalid_node(
             "the node doesn't implement `IInteger` nor `IBoolean".into(),
